@@ -258,6 +258,36 @@ PROPS = {
         'design_ref': 'DESIGN.md 5 C18',
         'explanation': 'p2p contracts',
     },
+    'C19': {
+        'modules': ['contracts.c19'],
+        'level': 'proof',
+        'trusted_base': COMMON_TB,
+        'assumptions': [
+            'the injected HTTP connection does not touch the proxy object (stub class Conn in contracts/c19.py); '
+            'json.dumps / json.loads are opaque; the reply of _get_response is one of the enumerated JSON object shapes '
+            '(ASSUMED contracts reply_error_dict, reply_malformed, reply_result); a JSON reply that is not an object is '
+            'outside them',
+            'binascii.hexlify/unhexlify are an uninterpreted inverse pair whose output is ASCII; str.encode/bytes.decode '
+            'are uninterpreted strict codecs (decode-then-encode and encode-then-decode are identities when they succeed)',
+            'decimal.Decimal and float arithmetic are outside the model: the amount clauses are BOUNDED only',
+        ],
+        'level_text': 'PROVED for all inputs: BaseProxy._call increments the request id by exactly one on every call and '
+                      'for every reply shape (strictly increasing ids); an error object with code c raises exactly the class '
+                      'registered for c (the base class for unregistered codes) and never returns, with or without a result '
+                      'member; non-object errors, error objects without code and replies without result raise JSONRPCError; a '
+                      'reply without error returns its result; b2lx/lx and b2x/x and hexlify_str/unhexlify_str are exact '
+                      'inverses on every byte string (so a hash returned by one call is the hex another call sends). '
+                      'BOUNDED over a recording fake connection: amounts received as decimal text (5 notations incl. exponent '
+                      'form, boundaries 0, 1, 21e14, every fractional-digit pattern sampled) convert to exactly the satoshis '
+                      'denoted; amounts sent (sendtoaddress, sendmany) are JSON numbers denoting exactly the satoshis (read '
+                      'with exact rational arithmetic); getblockhash -> getblock/getblockheader and sendrawtransaction -> '
+                      'getrawtransaction round trips are bit-exact with Core-style reversed hex and increasing ids; real error '
+                      'bodies incl. non-JSON.',
+        'level_note': 'trusted: pyvc, stub connection, assumed reply shapes, hex/codec uninterpreted pairs; Decimal/float '
+                      'semantics are not modelled (bounded units only)',
+        'design_ref': 'DESIGN.md 5 C19',
+        'explanation': 'contracts on _call, hash/hex helpers; bounded Proxy-method units',
+    },
     'C20': {
         'modules': ['contracts.c20'],
         'level': 'other',
